@@ -82,6 +82,10 @@ PREF_SETS = [
     [["pref", "CapitalLetters_UseWord", "false"], ["pref", "CapitalLetters_Pitch", "30"], ["pref", "CapitalLetters_Beep", "true"]],
     [["pref", "Impairment", "LearningDisability"]],
     [["pref", "Impairment", "LowVision"], ["pref", "ClearSpeak_CapitalLetters", "SayCaps"]],
+    # preferences that only mean something to a speech engine: with no engine selected they must leave no trace in the text
+    [["pref", "Bookmark", "true"]],
+    [["pref", "Pitch", "20"], ["pref", "Rate", "250"], ["pref", "Volume", "50"], ["pref", "PauseFactor", "300"], ["pref", "MathRate", "150"]],
+    [["pref", "Bookmark", "true"], ["pref", "CapitalLetters_Pitch", "30"], ["pref", "CapitalLetters_Beep", "true"], ["pref", "MathRate", "50"], ["pref", "PauseFactor", "0"]],
 ]
 
 
@@ -244,7 +248,7 @@ def main(tier):
         rule="all spine terms of G to depth 2 and the trigger terms in all 45 language x style x verbosity configurations; single deviations "
              "(degenerate / invisible-operator children, insertions, deletions) of every depth-1 term (thorough: also of the trigger terms) in every language "
              "and style (quick: Terse and Verbose; thorough: all); one token context for every key of each language's unicode.yaml and unicode-full.yaml "
-             "(read with yaml-rust) and for characters in no table; four capital-letter / override / impairment preference sets on a reduced corpus. "
+             "(read with yaml-rust) and for characters in no table; seven preference sets (capital letters, overrides, impairment, and the engine-only preferences Bookmark / Pitch / Rate / Volume / PauseFactor / MathRate / beep) on a reduced corpus. "
              "Per case: speech, overview and four navigation reads. distinct_nontrivial = distinct (configuration, speech) pairs",
         assumptions=["input alphabets contain no private-use characters, so documented pass-through of unknown characters cannot trip the check",
                      "navigation reads are checked for cleanliness only (they may legitimately fail or be empty)"],
